@@ -123,3 +123,69 @@ def run(chk, repo, tier):
         chk.violation(V1, mc.module.rel, 'Model', f'called from {names_}',
                       'Model.create and Model.replace must both canonicalise the parameter estimates',
                       witness='model.replace(parameters=...) with an invalid covariance block keeps it')
+    run_more(chk, repo, mc)
+
+
+def run_more(chk, repo, mc):
+    from sa import lints
+    st = lints.self_test()
+    if not all(st.values()):
+        raise AnalysisError(f'lint self-test failed: {st}')
+    V2 = chk.rule('V2', 'index bookkeeping: a loop that deletes rows/columns/names by index iterates the indices in '
+                        'descending order', floor=1)
+    V3 = chk.rule('V3', 'Model.create / Model.replace: every path to the constructed model passes '
+                        '_canonicalize_parameter_estimates (whichever of parameters / random_variables was given)', floor=2)
+    V4 = chk.rule('V4', 'conversion loops read the input values, not the dictionary they are writing (no double '
+                        'conversion of shared symbols)', floor=1)
+    SCOPE = ('pharmpy.model.random_variables', 'pharmpy.model.distributions', 'pharmpy.internals.math',
+             'pharmpy.modeling.math', 'pharmpy.modeling.estimation', 'pharmpy.modeling.parameter_variability',
+             'pharmpy.model.parameters', 'pharmpy.model.model')
+    for f in repo.all_funcs():
+        if not f.module.name.startswith(SCOPE):
+            continue
+        for L, dels, ok in lints.index_deletes(f.node):
+            chk.instance(V2, f'{f.qualname}: for {unparse(L.target)} in {unparse(L.iter)}: '
+                             f'{[unparse(d)[:30] for d in dels]} descending={ok}')
+            if not ok:
+                chk.violation(V2, f.module.rel, f.qualname, f'for {unparse(L.target)} in {unparse(L.iter)}: {unparse(dels[0])}',
+                              'after the first deletion the remaining indices refer to shifted positions',
+                              line=L.lineno,
+                              witness='remove two variables from a joint block of four or more (unjoin / selection by '
+                                      'names): a wrong name/row is deleted, one name is duplicated and one is lost')
+        hits, accs = lints.accumulator_reads(f.node)
+        for acc, src in accs.items():
+            chk.instance(V4, f'{f.qualname}: {acc} = copy of {src}; whole-dictionary reads inside writing loops: '
+                             f'{len([h for h in hits if h[0] == acc])}')
+        seen = set()
+        for acc, src, L, n in hits:
+            if (acc, unparse(n)) in seen:
+                continue
+            seen.add((acc, unparse(n)))
+            chk.violation(V4, f.module.rel, f.qualname, unparse(n),
+                          f'`{acc}` is being overwritten by this loop; values converted in an earlier iteration are '
+                          f'converted again when a later block uses the same symbols (read `{src}` instead)',
+                          line=n.lineno,
+                          witness='two joint blocks that share their omega symbols (IOV per occasion / BLOCK SAME): the '
+                                  'second block is evaluated on sd/corr values and converted twice')
+    # V3
+    for name in ('create', 'replace'):
+        f = mc.methods.get(name)
+        if f is None:
+            raise AnalysisError(f'Model.{name} not found')
+        cfg = CFG(f.node)
+        canon = {n.id for n in cfg.nodes.values() if n.ast is not None and n.kind in ('stmt', 'return')
+                 and any(unparse(c.func).endswith('_canonicalize_parameter_estimates')
+                         for c in ast.walk(n.ast) if isinstance(c, ast.Call))}
+        rets = [n for n in cfg.nodes.values() if n.kind == 'return' and n.ast.value is not None]
+        if not canon or not rets:
+            raise AnalysisError(f'Model.{name}: canonicalisation call or return not found')
+        for r in rets:
+            ok = r.id in canon or r.id not in cfg.reachable(cfg.entry, avoid=canon, labels_excluded=('exc', 'fexc'))
+            chk.instance(V3, f'Model.{name}: `{r.text()[:60]}` dominated by _canonicalize_parameter_estimates: {ok}')
+            if not ok:
+                p = cfg.path(cfg.entry, r.id, avoid=canon, labels_excluded=('exc', 'fexc'))
+                chk.violation(V3, mc.module.rel, f.qualname, f'return without _canonicalize_parameter_estimates',
+                              'a model can be constructed without checking the initial estimates against the (new) '
+                              'covariance structure', line=r.line, path=cfg.describe(p or [])[-8:],
+                              witness='model.replace(random_variables=joint block) on parameters whose values are '
+                                      'indefinite for the new block: the model keeps an invalid covariance matrix')
